@@ -180,6 +180,7 @@ func HarnessC03TwoSenders(a []int) {
 		}
 	}
 	var acked []uint8
+	var forwarded []cemi.Message // what the gateway put on the bus (first acceptance of each number)
 	go func() { // gateway
 		verifDaemon()
 		expect := s
@@ -191,6 +192,7 @@ func HarnessC03TwoSenders(a []int) {
 			if first {
 				expect++
 				acked = append(acked, f.SeqNumber) // accepted (forwarded) by the gateway
+				forwarded = append(forwarded, f.Payload)
 			}
 			k := 0
 			if faults > 0 {
@@ -209,11 +211,16 @@ func HarnessC03TwoSenders(a []int) {
 	}()
 	results := make(chan error, nS*per)
 	msgs := [4]cemi.Message{c04Msgs[0], c04Msgs[1], c04Msgs[2], c04Msgs[3]}
+	var succeeded []cemi.Message
 	for i := 0; i < nS; i++ {
 		i := i
 		go func() {
 			for j := 0; j < per; j++ {
-				results <- conn.Send(msgs[i*per+j])
+				err := conn.Send(msgs[i*per+j])
+				if err == nil {
+					succeeded = append(succeeded, msgs[i*per+j])
+				}
+				results <- err
 			}
 		}()
 	}
@@ -239,6 +246,25 @@ func HarnessC03TwoSenders(a []int) {
 		verifAssert("C03.two.consecutive", q == s+uint8(i))
 	}
 	verifAssert("C03.two.counter", conn.seqNumber == s+uint8(len(acked)) || conn.seqNumber+1 == s+uint8(len(acked)))
+	if len(a) > 3 && a[3] == 5 {
+		// C05 with concurrent senders (registered under C05, fault-free gateway): every telegram whose
+		// Send succeeded was put on the bus exactly once, and none twice
+		for _, m := range succeeded {
+			n := 0
+			for _, f := range forwarded {
+				if f == m {
+					n++
+				}
+			}
+			verifAssert("C05.two.success_implies_forwarded_once", n == 1)
+		}
+		for i := range forwarded {
+			for j := i + 1; j < len(forwarded); j++ {
+				verifAssert("C05.two.never_forwarded_twice", forwarded[i] != forwarded[j])
+			}
+		}
+		verifCover("C05.two.end")
+	}
 	verifObserve("ok", okCount)
 	verifCover("C03.two.end")
 }
